@@ -287,7 +287,8 @@ def make_service(loop):
 
 def phase_notify(args):
     """(iii) notification path across the wrap; a second subscriber joins at three points"""
-    seed, rounds = args
+    seed, rounds = args[:2]
+    plain = len(args) > 2 and args[2] == "plain"  # every round names every event once (another alignment of the wrap)
     loop = VLoop().install()
     viols = []
     try:
@@ -325,7 +326,7 @@ def phase_notify(args):
             else:
                 # most rounds name every event once; some name an event twice or only a few (an application flushing a
                 # list of changed events): every named item is a notification with an id of its own
-                evs = {5: [1, 2, 1], 9: [2, 2], 13: [3], 14: [8, 7, 8, 7, 8]}.get(r % 16, list(eg.values.keys()))
+                evs = {5: [1, 2, 1], 9: [2, 2], 13: [3], 14: [8, 7, 8, 7, 8]}.get(-1 if plain else r % 16, list(eg.values.keys()))
                 eg.notify_once(evs)
             loop.settle()
             for _, _, data, addr in s.transport.sent:
@@ -602,12 +603,12 @@ def _run(job):
 
 
 def check(ctx):
-    jobs = [("cycle", (ctx.seed, 20)), ("interleave", (ctx.seed, 3, 6)), ("notify", (ctx.seed, 8200)),
+    jobs = [("cycle", (ctx.seed, 20)), ("interleave", (ctx.seed, 3, 6)), ("notify", (ctx.seed, 8200)), ("notify", (ctx.seed, 8200, "plain")),
             ("sendrecv", (ctx.seed, ctx.pick(4, 6))), ("interleave", (ctx.seed, 3, 4, "v6scope")),
             ("interleave", (ctx.seed, 3, 5, "fresh")), ("interleave", (ctx.seed + 1, 2, 6, "fresh")), ("leave", ctx.seed), ("reentrant", ctx.seed), ("threads", ctx.seed)]
     if ctx.thorough:
         jobs += [("interleave", (ctx.seed, 4, 8)), ("interleave", (ctx.seed + 1, 2, 12)),
-                 ("notify", (ctx.seed, 17000))]
+                 ("notify", (ctx.seed, 17000)), ("notify", (ctx.seed, 17000, "plain"))]
     out = core.pmap(_run, jobs, 1)
     viols = []
     for (kind, args), o in zip(jobs, out):
